@@ -31,4 +31,4 @@ PROP = dict(
     design_ref="DESIGN.md section 5 (C09)",
 )
 
-HOOK_COMMITS = ["hooks/c09_file_yield_points.patch (lib/file/verif_on.go, verif_off.go, verifPoint calls in control_file.go and handler.go)"]
+HOOK_COMMITS = ["f46c903"]
